@@ -3,6 +3,7 @@ CONSTANTS
   Dims = {1}
   Addrs = {1, 2}
   KeyHoldsRef = FALSE
+  FullBoots = FALSE
 SPECIFICATION SpecCache
 CHECK_DEADLOCK FALSE
 INVARIANT L_CacheCoherent
